@@ -1,7 +1,7 @@
 (* C05  A corrupted frame is rejected or decoded as what it actually says — engine half, for every input. *)
 From Coq Require Import ZArith List Bool.
 Require Import PyIR.Base.Result PyIR.IW.IW PyIR.Engine.Match PyIR.Engine.Render PyIR.Engine.Parse
-               PyIR.Engine.ParseProps PyIR.Engine.RoundTripH PyIR.Engine.Tolerance PyIR.Engine.ParseM PyIR.Engine.ParseMProps PyIR.Engine.ParseB PyIR.Engine.ParseHT PyIR.Engine.ParseHTProps.
+               PyIR.Engine.ParseProps PyIR.Engine.RoundTripH PyIR.Engine.Tolerance PyIR.Engine.ParseM PyIR.Engine.ParseMProps PyIR.Engine.ParseB PyIR.Engine.ParseHT PyIR.Engine.ParseHTProps PyIR.Engine.ParseMT PyIR.Engine.ParseMTProps.
 Import ListNotations.
 Open Scope Z_scope.
 
@@ -42,7 +42,14 @@ Theorem C05_tuple_middle_cleaned_code_is_nominal : forall tol t mids cl0 ds fin,
   exists added, ht_clean fin = added ++ cl0 /\ Forall (nominal t mids) added.
 Proof. exact data_loopT_nominal. Qed.
 
+(* ... and the same for the Manchester loop with tuple / integer middle timings: only the two halves of the first table entry and the
+   declared middle durations are written *)
+Theorem C05_manchester_middle_cleaned_code_is_nominal : forall tol m s mids ds st st', incl (mt_mids st) mids ->
+  man_loopT tol m s st ds = Ok st' -> extendsT m s mids (mt_clean st) (mt_clean st').
+Proof. exact man_loopT_nominal. Qed.
+
 Print Assumptions C05_parse_sound.
+Print Assumptions C05_manchester_middle_cleaned_code_is_nominal.
 Print Assumptions C05_tuple_middle_cleaned_code_is_nominal.
 Print Assumptions C05_parse_sound_serial.
 Print Assumptions C05_parse_sound_manchester.
